@@ -156,6 +156,30 @@ impl CountMinSketch {
     }
 }
 
+#[cfg(transparencies_stretto_verif)]
+impl CountMinRow {
+    pub(crate) fn verif_bytes(&self) -> Vec<u8> {
+        self.0.clone()
+    }
+    pub(crate) fn verif_set_bytes(&mut self, b: &[u8]) {
+        self.0 = b.to_vec()
+    }
+}
+
+#[cfg(transparencies_stretto_verif)]
+impl CountMinSketch {
+    pub(crate) fn verif_snap(&self) -> crate::verif::SketchSnap {
+        crate::verif::SketchSnap {
+            rows: self.rows.iter().map(|r| r.0.clone()).collect(),
+            seeds: self.seeds,
+            mask: self.mask,
+        }
+    }
+    pub(crate) fn verif_set_seeds(&mut self, seeds: [u64; DEPTH]) {
+        self.seeds = seeds
+    }
+}
+
 #[cfg(test)]
 mod test {
     use super::*;
